@@ -146,7 +146,7 @@ def _aperture_photometry(c):
     for method in ('exact', 'center', 'subpixel'):
         c.step(f'aperture_photometry[{method}]', lambda: aperture_photometry(d, aps, error=e, mask=m, method=method, subpixels=3), mix=True)
     c.step('aperture_photometry[tiny aperture on a masked pixel]', lambda: aperture_photometry(d, tiny, error=e, mask=m), mix=True)
-    if c.rep != 'nddata':       # an NDData always brings its uncertainty along
+    if c.rep not in ('nddata', 'nddata_q'):       # an NDData always brings its uncertainty along
         c.step('aperture_photometry[no error]', lambda: aperture_photometry(d, aps[0], mask=m))
 
 
@@ -170,10 +170,9 @@ def _aperture_stats(c):
     d = c.data(nddata_ok=True, nd_wcs=wcs)
     e, m = c.error(), c.mask()
     ap = c.hold('aperture', CircularAperture(_pos3(c), 4.0))
-    lb = c.hold('local_bkg', np.array([1.0, 2.0, 0.5]))
-    if c.rep == 'nddata':
+    if c.rep in ('nddata', 'nddata_q'):
         wcs = None          # taken from the NDData
-    lbq = c.q(lb) if c.unitful_data or c.unitful_companion else lb
+    lbq = c.hold('local_bkg', c.q(np.array([1.0, 2.0, 0.5]), 'local_bkg'))
     st = c.step('ApertureStats', lambda: ApertureStats(d, ap, error=e, mask=m, wcs=wcs, sigma_clip=_sigclip(), local_bkg=lbq), mix=True)
     c.members('ApertureStats', st)
     if st is not None:
@@ -372,7 +371,7 @@ def _params_table(c, names=('x_0', 'y_0', 'flux'), extra=None):
     t = QTable()
     t[names[0]] = XPOS.copy()
     t[names[1]] = YPOS.copy()
-    t[names[2]] = c.q(np.array([9000.0, 7000.0, 6000.0]))
+    t[names[2]] = c.q(np.array([9000.0, 7000.0, 6000.0]), 'flux')
     for k, v in (extra or {}).items():
         t[k] = v
     return t
@@ -423,16 +422,16 @@ def _find_peaks(c):
     from photutils.centroids import centroid_2dg, centroid_com
     from photutils.detection import find_peaks
     d, e, m = _sub(c), c.error(), c.mask()
-    thr = c.hold('threshold', c.q(np.full(c.shape, 100.0)))
+    thr = c.hold('threshold', c.q(np.full(c.shape, 100.0), 'threshold'))
     fp = c.hold('footprint', np.ones((5, 5), bool))
     wcs = c.hold('wcs', _wcs())
-    c.step('find_peaks', lambda: find_peaks(d, c.q(100.0), box_size=5, mask=m), mix=True)
+    c.step('find_peaks', lambda: find_peaks(d, c.q(100.0, 'threshold'), box_size=5, mask=m), mix=True)
     c.step('find_peaks[threshold map, footprint, border]', lambda: find_peaks(d, thr, footprint=fp, mask=m, border_width=2, npeaks=2), mix=True)
-    c.step('find_peaks[centroid_com, wcs]', lambda: find_peaks(d, c.q(100.0), box_size=5, mask=m, error=e, centroid_func=centroid_com, wcs=wcs), mix=True)
-    c.step('find_peaks[centroid_2dg]', lambda: find_peaks(d, c.q(100.0), box_size=7, mask=m, error=e, centroid_func=centroid_2dg), mix=True)
+    c.step('find_peaks[centroid_com, wcs]', lambda: find_peaks(d, c.q(100.0, 'threshold'), box_size=5, mask=m, error=e, centroid_func=centroid_com, wcs=wcs), mix=True)
+    c.step('find_peaks[centroid_2dg]', lambda: find_peaks(d, c.q(100.0, 'threshold'), box_size=7, mask=m, error=e, centroid_func=centroid_2dg), mix=True)
     if c.geom != 'base':
         # the local-maximum box and the centroid cutout are as large as the image (9x9 in the 'tight' frame)
-        c.step('find_peaks[box 9, centroid_com]', lambda: find_peaks(d, c.q(100.0), box_size=9, mask=m, error=e, centroid_func=centroid_com), mix=True)
+        c.step('find_peaks[box 9, centroid_com]', lambda: find_peaks(d, c.q(100.0, 'threshold'), box_size=9, mask=m, error=e, centroid_func=centroid_com), mix=True)
 
 
 def _xy2(c):
@@ -449,11 +448,11 @@ def _dao(c):
     from photutils.detection import DAOStarFinder
     d, m = _sub(c), c.mask()
     xy = c.hold('xycoords', _xy2(c))
-    f = c.step('DAOStarFinder', lambda: DAOStarFinder(c.q(50.0), 4.0, peakmax=c.q(5000.0)))
+    f = c.step('DAOStarFinder', lambda: DAOStarFinder(c.q(50.0, 'threshold'), 4.0, peakmax=c.q(5000.0, 'peakmax')))
     if f is not None:
         c.step('DAOStarFinder()', lambda: f(d, mask=m), mix=True)
         c.step('DAOStarFinder.find_stars', lambda: f.find_stars(d, mask=m))
-    f2 = c.step('DAOStarFinder[xycoords]', lambda: DAOStarFinder(c.q(50.0), 4.0, xycoords=xy, brightest=2, ratio=0.8, theta=30.0))
+    f2 = c.step('DAOStarFinder[xycoords]', lambda: DAOStarFinder(c.q(50.0, 'threshold'), 4.0, xycoords=xy, brightest=2, ratio=0.8, theta=30.0))
     if f2 is not None:
         c.step('DAOStarFinder[xycoords]()', lambda: f2(d, mask=m), mix=True)
 
@@ -463,10 +462,10 @@ def _iraf(c):
     from photutils.detection import IRAFStarFinder
     d, m = _sub(c), c.mask()
     xy = c.hold('xycoords', _xy2(c))
-    f = c.step('IRAFStarFinder', lambda: IRAFStarFinder(c.q(50.0), 4.0, peakmax=c.q(5000.0), roundhi=1.0, sharplo=0.0))
+    f = c.step('IRAFStarFinder', lambda: IRAFStarFinder(c.q(50.0, 'threshold'), 4.0, peakmax=c.q(5000.0, 'peakmax'), roundhi=1.0, sharplo=0.0))
     if f is not None:
         c.step('IRAFStarFinder()', lambda: f(d, mask=m), mix=True)
-    f2 = c.step('IRAFStarFinder[xycoords]', lambda: IRAFStarFinder(c.q(50.0), 4.0, xycoords=xy, brightest=2, roundhi=1.0, sharplo=0.0))
+    f2 = c.step('IRAFStarFinder[xycoords]', lambda: IRAFStarFinder(c.q(50.0, 'threshold'), 4.0, xycoords=xy, brightest=2, roundhi=1.0, sharplo=0.0))
     if f2 is not None:
         c.step('IRAFStarFinder[xycoords]()', lambda: f2(d, mask=m), mix=True)
 
@@ -486,7 +485,7 @@ def _starfinder(c):
     from photutils.detection import StarFinder
     d, m = _sub(c), c.mask()
     k = c.hold('kernel', star_kernel())
-    f = c.step('StarFinder', lambda: StarFinder(c.q(50.0), k, peakmax=c.q(5000.0)))
+    f = c.step('StarFinder', lambda: StarFinder(c.q(50.0, 'threshold'), k, peakmax=c.q(5000.0, 'peakmax')))
     if f is not None:
         c.step('StarFinder()', lambda: f(d, mask=m), mix=True)
         c.step('StarFinder.find_stars', lambda: f.find_stars(d, mask=m))
@@ -498,7 +497,7 @@ def _starfinder_int(c):
     d, m = _sub(c), c.mask()
     # integer-VALUED kernel: float64 in the baseline, an integer dtype in the integer representations
     k = c.array('kernel', star_kernel(np.int64).astype(float), kind='plain')
-    c.step('StarFinder[integer-valued kernel]()', lambda: StarFinder(c.q(50.0), k)(d, mask=m), mix=True)
+    c.step('StarFinder[integer-valued kernel]()', lambda: StarFinder(c.q(50.0, 'threshold'), k)(d, mask=m), mix=True)
 
 
 # --------------------------------------------------------------------------
@@ -740,7 +739,7 @@ def _init_params(c, group=False):
         t['group_id'] = np.array([1, 2, 2])
     t['x'] = XPOS + 0.3
     t['y'] = YPOS - 0.2
-    t['flux'] = c.q(np.array([9000.0, 7000.0, 6000.0]))
+    t['flux'] = c.q(np.array([9000.0, 7000.0, 6000.0]), 'flux')
     if c.geom != 'base':                 # a frame holds source 0 only
         t = t[:1]
         t['x'] = [c.src0()[0] + 0.3]
@@ -780,12 +779,13 @@ def _psfphot2(c):
     psf = c.hold('psf_model', psf)
     t = c.hold('init_params', _init_params(c, group=True))
     bounds = c.hold('xy_bounds', (2.0, 2.0))
-    finder = DAOStarFinder(c.q(50.0), 4.0)
+    finder = c.carry(DAOStarFinder(c.q(50.0, 'threshold'), 4.0))     # (c.carry: the finder brings the threshold into the calls)
     ph = c.step('PSFPhotometry[finder]', lambda: PSFPhotometry(psf, (7, 9), finder=finder, aperture_radius=4, xy_bounds=bounds))
     if ph is None:
         return
-    c.step('PSFPhotometry[finder]()', lambda: ph(d, mask=m, error=e))
-    c.step('PSFPhotometry[group_id]()', lambda: ph(d, mask=m, error=e, init_params=t), mix=True)
+    c.step('PSFPhotometry[finder]()', lambda: ph(d, mask=m, error=e), mix=True)
+    # (the finder is documented to be ignored when init_params gives the positions)
+    c.step('PSFPhotometry[group_id]()', lambda: ph(d, mask=m, error=e, init_params=t), mix=True, ignores=('threshold',))
     c.step('PSFPhotometry[group_id].make_residual_image', lambda: ph.make_residual_image(d))
 
 
@@ -802,7 +802,7 @@ def _iterpsf(c):
     e, m = c.error(), c.mask()
     psf = c.hold('psf_model', CircularGaussianPRF(flux=1.0, fwhm=4.5))
     t = c.hold('init_params', _init_params(c)[:2])
-    finder = DAOStarFinder(c.q(50.0), 4.0)
+    finder = c.carry(DAOStarFinder(c.q(50.0, 'threshold'), 4.0))     # (c.carry: the finder brings the threshold into the calls)
     for mode in ('new', 'all'):
         ph = c.step(f'IterativePSFPhotometry[{mode}]', lambda: IterativePSFPhotometry(
             psf, (7, 7), finder=finder, aperture_radius=4, maxiters=2, mode=mode,
@@ -1043,18 +1043,18 @@ def _detect_threshold(c):
     b = c.background()
     c.step('detect_threshold', lambda: detect_threshold(d, 2.0, mask=m))
     c.step('detect_threshold[background, error]', lambda: detect_threshold(d, 2.0, background=b, error=e, mask=m), mix=True)
-    c.step('detect_threshold[scalars]', lambda: detect_threshold(d, 2.0, background=c.q(20.0), error=c.q(3.0), mask=m, sigma_clip=_sigclip()), mix=True)
+    c.step('detect_threshold[scalars]', lambda: detect_threshold(d, 2.0, background=c.q(20.0, 'background'), error=c.q(3.0, 'error'), mask=m, sigma_clip=_sigclip()), mix=True)
 
 
 @recipe('detect_sources', ['segmentation.detect.detect_sources'], units=True, geoms=G_DET)
 def _detect_sources(c):
     from photutils.segmentation import detect_sources
     d, m = _sub(c), c.mask()
-    thr = c.hold('threshold', c.q(np.full(c.shape, 60.0)))
-    c.step('detect_sources', lambda: detect_sources(d, c.q(60.0), 5, mask=m), mix=True)
+    thr = c.hold('threshold', c.q(np.full(c.shape, 60.0), 'threshold'))
+    c.step('detect_sources', lambda: detect_sources(d, c.q(60.0, 'threshold'), 5, mask=m), mix=True)
     c.step('detect_sources[threshold map, 4-conn]', lambda: detect_sources(d, thr, 5, connectivity=4, mask=m), mix=True)
     if c.geom != 'base':     # every finite unmasked pixel is above the threshold: one segment covering the whole image
-        c.step('detect_sources[whole image]', lambda: detect_sources(d, c.q(-1000.0), 1, mask=m), mix=True)
+        c.step('detect_sources[whole image]', lambda: detect_sources(d, c.q(-1000.0, 'threshold'), 1, mask=m), mix=True)
 
 
 BLEND = (slice(13, 30), slice(25, 43))       # 17x18 frame around the blended pair (sources 1 and 3)
@@ -1078,9 +1078,9 @@ def _deblend_sources(c):
 def _source_finder(c):
     from photutils.segmentation import SourceFinder
     d, m = _sub(c), c.mask()
-    thr = c.hold('threshold', c.q(np.full(SHAPE, 60.0)))
+    thr = c.hold('threshold', c.q(np.full(SHAPE, 60.0), 'threshold'))
     c.step('SourceFinder()', lambda: SourceFinder(5, progress_bar=False, contrast=0.0001)(d, thr, mask=m), mix=True)
-    c.step('SourceFinder[no deblend]()', lambda: SourceFinder(5, deblend=False, progress_bar=False)(d, c.q(60.0), mask=m), mix=True)
+    c.step('SourceFinder[no deblend]()', lambda: SourceFinder(5, deblend=False, progress_bar=False)(d, c.q(60.0, 'threshold'), mask=m), mix=True)
 
 
 # --------------------------------------------------------------------------
@@ -1149,9 +1149,9 @@ def _calc_total_error(c):
         gain[0, :] = 0.0
     else:
         gain[0, 0] = 0.0                 # (a whole row would be the whole one-row image)
-    gq = c.unitful_data or c.unitful_companion
-    g = c.hold('effective_gain', gain * (u.electron / c.unit) if gq else gain)
-    c.step('calc_total_error', lambda: calc_total_error(d, b, 2.0 * (u.electron / c.unit) if gq else 2.0), mix=True)
+    gkw = dict(name='effective_gain', unit=u.electron / c.unit, power=-1, scaled=False)
+    g = c.hold('effective_gain', c.q(gain, **gkw))
+    c.step('calc_total_error', lambda: calc_total_error(d, b, c.q(2.0, **gkw)), mix=True)
     c.step('calc_total_error[gain map]', lambda: calc_total_error(d, b, g), mix=True)
 
 
